@@ -98,6 +98,18 @@ func c18Cases(seed uint64, tier string) []core.Case {
 		}
 	}
 	out = append(out, c18IBCCases(rng, reps)...)
+	// the receiver is a plain account that already owns coins of the bridged tokens (kept last: the cases above
+	// keep their seeds)
+	for rep := 0; rep < reps; rep++ {
+		ch := chains[rep%len(chains)]
+		for nt := 2; nt <= 3; nt++ {
+			for k := 0; k < nt; k++ {
+				for _, rf := range []string{"to", "other"} {
+					out = append(out, core.MkCase(fmt.Sprintf("C18-bridgecall-token-disabled-plain-%d-%d-%s-%d", nt, k, rf, rep), c18Spec{Seed: rng.Uint64(), Chain: ch, Mode: "bridgecall", Target: "token-disabled-plain", Refund: rf, NTokens: nt, FailAt: k}))
+				}
+			}
+		}
+	}
 	return out
 }
 
@@ -254,6 +266,10 @@ func c18BridgeCall(spec c18Spec, res *core.CaseResult, verbose bool) {
 		res.Inconclusive = err.Error()
 		return
 	}
+	if spec.Target == "token-disabled-plain" {
+		c18BridgeCallPlain(spec, res, verbose, c, b, toks)
+		return
+	}
 	if spec.Target == "token-disabled" {
 		if r := c.Msg(&erc20types.MsgToggleTokenConversion{Authority: chain.GovAuthority(), Token: toks[spec.FailAt].Base}); !r.OK() {
 			res.Inconclusive = r.ErrString()
@@ -367,6 +383,95 @@ func c18BridgeCall(spec c18Spec, res *core.CaseResult, verbose bool) {
 	}
 	if len(lines) > 0 {
 		res.Violate("C18/failed-bridge-call-left-effects/"+spec.Target, "inbound bridge call whose target fails by %s (tokens %d) differs from the entry-revert twin in %d keys: %s", spec.Target, spec.NTokens, len(lines), strings.Join(firstN(lines, 5), " | "))
+	}
+}
+
+// c18BridgeCallPlain: an inbound bridge call with several tokens to a plain account that already owns coins and
+// ERC-20 units of those tokens; the conversion of token FailAt is switched off by governance, so the delivery
+// fails half-way. The designated outcome is one refund record for everything, and the receiver owns exactly what
+// it owned before.
+func c18BridgeCallPlain(spec c18Spec, res *core.CaseResult, verbose bool, c *chain.Chain, b *fix.Bridge, toks []*fix.WToken) {
+	sender, other, exec, to := c.Users[1], c.Users[2], c.Users[3], c.Users[4]
+	for _, t := range toks {
+		// coins of the token's own denomination, half of them converted to the ERC-20
+		coins := sdk.NewCoin(t.Base, sdkmath.NewInt(10_000))
+		if err := c.App.BankKeeper.MintCoins(c.Ctx, erc20types.ModuleName, sdk.NewCoins(coins)); err != nil {
+			res.Inconclusive = err.Error()
+			return
+		}
+		if err := c.App.BankKeeper.SendCoinsFromModuleToAccount(c.Ctx, erc20types.ModuleName, to.Acc(), sdk.NewCoins(coins)); err != nil {
+			res.Inconclusive = err.Error()
+			return
+		}
+		if r := c.Msg(&erc20types.MsgConvertCoin{Coin: sdk.NewCoin(t.Base, sdkmath.NewInt(5_000)), Receiver: to.Hex().Hex(), Sender: to.Bech32()}); !r.OK() {
+			res.Inconclusive = "convert: " + r.ErrString()
+			return
+		}
+	}
+	if r := c.Msg(&erc20types.MsgToggleTokenConversion{Authority: chain.GovAuthority(), Token: toks[spec.FailAt].Base}); !r.OK() {
+		res.Inconclusive = r.ErrString()
+		return
+	}
+	c.Next()
+	refund := to.Hex()
+	if spec.Refund == "other" {
+		refund = other.Hex()
+	}
+	var ext []common.Address
+	var amts []sdkmath.Int
+	for i, t := range toks {
+		ext = append(ext, t.Ext[spec.Chain])
+		amts = append(amts, sdkmath.NewInt(int64(100*(i+1))))
+	}
+	n, h := b.NextEvent()
+	in := fix.BridgeCallIn{Sender: sender.Hex(), Refund: refund, To: to.Hex(), TxOrigin: sender.Hex(), Tokens: ext, Amounts: amts}
+	if err := b.Quorum(b.BridgeCallClaim(n, h, in)); err != nil {
+		res.Inconclusive = "quorum: " + err.Error()
+		return
+	}
+	type holding struct{ coins, erc20 []string }
+	snap := func(ctx sdk.Context, who chain.Key) holding {
+		var hd holding
+		for _, t := range toks {
+			hd.coins = append(hd.coins, c.Balance(ctx, who.Acc(), t.Base).String())
+			hd.erc20 = append(hd.erc20, c.ERC20Balance(ctx, t.ERC20, who.Hex()).String())
+		}
+		return hd
+	}
+	before := snap(c.Ctx, to)
+	ctx := c.Branch()
+	pc := fix.PrecompileCrosschain()
+	x := c.EthTxOn(ctx, exec, &pc, fix.PackCrosschain("executeClaim", spec.Chain, new(big.Int).SetUint64(n)), nil, 0)
+	after := snap(ctx, to)
+	if verbose {
+		fmt.Printf("plain receiver: executeClaim failed=%v %s; receiver before %v after %v\n", x.Failed(), short(x.VmError()), before, after)
+	}
+	res.Nontrivial = true
+	res.Count("refund_records_checked", 1)
+	res.Count("plain_receiver_cases", 1)
+	sfx := "/refund=" + spec.Refund
+	var cs []*crosschaintypes.OutgoingBridgeCall
+	b.K.IterateOutgoingBridgeCalls(ctx, func(oc *crosschaintypes.OutgoingBridgeCall) bool { cs = append(cs, oc); return false })
+	if _, pending := b.K.GetPendingExecuteClaim(ctx, n); x.Failed() || pending {
+		res.Violate("C18/inbound-bridge-call-refund-missing"+sfx, "plain receiver: executing the inbound bridge call whose token %d cannot be converted fails itself (%s): the claim stays parked and no refund record is produced", spec.FailAt, short(x.VmError()))
+		return
+	}
+	if len(cs) != 1 {
+		res.Violate("C18/refund-record-count"+sfx, "plain receiver: %d outgoing bridge calls after the failed inbound call, expected exactly one refund", len(cs))
+		return
+	}
+	want, got := map[string]string{}, map[string]string{}
+	for i, t := range toks {
+		want[t.ExtStr(spec.Chain)] = amts[i].String()
+	}
+	for _, tk := range cs[0].Tokens {
+		got[tk.Contract] = tk.Amount.String()
+	}
+	if fmt.Sprint(got) != fmt.Sprint(want) || cs[0].Refund != fix.ExtAddr(spec.Chain, refund) || cs[0].EventNonce != n {
+		res.Violate("C18/refund-record-content"+sfx, "plain receiver: refund call carries %v to %s for event %d, expected %v to %s for event %d", got, cs[0].Refund, cs[0].EventNonce, want, fix.ExtAddr(spec.Chain, refund), n)
+	}
+	if fmt.Sprint(before) != fmt.Sprint(after) {
+		res.Violate("C18/failed-bridge-call-left-effects/token-disabled-plain", "inbound bridge call to a plain account failed at token %d of %d and was refunded in full, but the receiver's own holdings changed: coins/ERC-20 before %v, after %v", spec.FailAt, spec.NTokens, before, after)
 	}
 }
 
